@@ -417,12 +417,12 @@ class GriffeLoader:
                 if already_present:
                     prev_member = obj.get_member(new_member.name)
                     with suppress(AliasResolutionError, CyclicAliasError):
-                        if prev_member.is_module:
-                            if prev_member.is_alias:
-                                prev_member = prev_member.final_target
-                            if alias.final_target is prev_member:
-                                # Alias named after the module it targets: skip to avoid cyclic aliases.
-                                continue
+                        if prev_member.is_module and prev_member.is_alias:
+                            prev_member = prev_member.final_target
+                        if alias.final_target is prev_member:
+                            # Alias named after the module it targets, or object coming back to the module
+                            # that defines it through a cycle of wildcard imports: skip to avoid cyclic aliases.
+                            continue
 
                 # Everything went right (supposedly), we add the alias as a member of the current object.
                 obj.set_member(new_member.name, alias)
